@@ -726,6 +726,11 @@ class Engine:
             if isinstance(it, Exc):
                 out.append(("exc", s2, it))
                 continue
+            if isinstance(it, RecRepeated):     # a repeated protobuf field held python-side: its current tuple
+                cur = self.read_field(s2, it.owner, it.field)[0][1]
+                if not isinstance(cur, tuple):
+                    raise Unsupported("iteration over a repeated field of unknown content", node)
+                it = cur
             if isinstance(it, (list, tuple, range)) or (isinstance(it, dict)):
                 items = list(it)
                 out.extend(self._unrolled_for(node, s2, items))
